@@ -4,14 +4,33 @@ From RN Require Import Base.Bytes Base.Str Model.Edits Model.Fs Model.ApplyModel
 From RN Require Import Proofs.RenameP Proofs.RenameP2 Proofs.PatchP Proofs.UndoP.
 
 (* --- the text layer: whatever the hunk body is (any lines, including ones that look like headers:
-   a deleted line "-- x" is rendered "--- x"), rewriting the two header lines to safe file names and
-   parsing the result with diffy's header parser gives back exactly that body --- *)
+   a deleted line "-- x" is rendered "--- x") and whatever bytes the two file names are made of,
+   rewriting the two header lines to the file names and parsing the result with diffy's header
+   parser gives back exactly that body --- *)
 Theorem C01_rewrite_then_parse_keeps_body : forall from to body,
-  name_ok from = true -> name_ok to = true -> body_ok body = true ->
+  body_ok body = true ->
   diffy_body (rewrite_headers from to (render body)) = Some body.
 Proof. exact rewrite_then_parse_keeps_body. Qed.
 
-(* the behaviour before the repair did not (witness: a SQL comment line) *)
+(* a file name, written the way replace_patch_headers writes it (bare, or in the quoted form when it
+   contains a tab, newline, NUL, CR, double quote or backslash), is read back by diffy's
+   parse_filename as the same bytes: every byte string *)
+Theorem C01_header_names_roundtrip : forall n,
+  parse_filename (quote_name n ++ [10]) = Some n.
+Proof. exact parse_filename_quote. Qed.
+
+(* and both names come out of the header of the rewritten patch *)
+Theorem C01_rewrite_then_parse_header : forall from to body,
+  body_ok body = true ->
+  parse_header_lines None None (skip_preamble (split_lines (rewrite_headers from to (render body))))
+  = Some (Some from, Some to, body).
+Proof. exact rewrite_then_parse_header. Qed.
+
+(* before names were quoted such a name was written bare, which diffy rejects (witness: a quote) *)
+Theorem C01_unquoted_name_rejected : parse_filename (bs "we""ird.txt" ++ [10]) = None.
+Proof. exact unquoted_name_rejected. Qed.
+
+(* the behaviour before the first repair did not keep the body (witness: a SQL comment line) *)
 Theorem C01_rewrite_old_corrupts_body : exists from to body,
   name_ok from = true /\ name_ok to = true /\ body_ok body = true /\
   diffy_body (rewrite_headers_old from to (render body)) <> Some body.
@@ -57,6 +76,9 @@ Proof. exact apply_then_undo_renames. Qed.
 
 Print Assumptions C01_apply_then_undo_renames.
 Print Assumptions C01_rewrite_then_parse_keeps_body.
+Print Assumptions C01_header_names_roundtrip.
+Print Assumptions C01_rewrite_then_parse_header.
+Print Assumptions C01_unquoted_name_rejected.
 Print Assumptions C01_rewrite_old_corrupts_body.
 Print Assumptions C01_undo_steps_invert_final_path.
 Print Assumptions C01_apply_then_undo_steps.
